@@ -50,6 +50,20 @@ def machinery_failure(r):
         return True
     return False
 
+def standin(u, p):
+    """bounded stand-in for a proof whose loop contracts do not fit the code: no loop contracts, every loop unwound FALLBACK_UNWIND times"""
+    p3 = engine.Proof(p.kind, p.target, dict(p.opts, fallback_unwind=str(FALLBACK_UNWIND), canary='0'))
+    try: u.prove(p3)
+    except Exception as e: p3.status = 'UNDECIDED'; p3.reason = 'internal error: %r' % e
+    def mach3(x):
+        # in the stand-in run a frame failure located in a MODEL (a model writing a ghost cell that the function's contract does
+        # not list) is a gap of the sidecar for the new code shape, not a verdict about the code
+        f_, _, _ = loc_of(x)
+        return machinery_failure(x) or ('.assigns.' in x.get('property', '') and f_ and (f_.startswith(VERIF) or f_.startswith('contracts/') or f_.startswith('models/')))
+    f3 = [x for x in p3.results if x['status'] != 'SUCCESS' and not mach3(x)]
+    clean = p3.status != 'UNDECIDED' and bool(p3.results) and not f3 and not any(mach3(x) for x in p3.results if x['status'] != 'SUCCESS')
+    return p3, f3, clean
+
 def run_check(prop, tier, only=None, jobs=14, show=None):
     t0 = time.time()
     seed = int(os.environ.get('VERIF_SEED', '0') or 0)
@@ -107,7 +121,7 @@ def run_check(prop, tier, only=None, jobs=14, show=None):
 
     kf_all = load_findings()
     findings = kf_all.get('findings', [])
-    violations = []; known_hits = []; obligations = 0; discharged = 0; bounded = []
+    violations = []; known_hits = []; obligations = 0; discharged = 0; bounded = []; standin_lines = []
     samples = []; proofs_ev = []; solver_s = 0.0
     for u, p in work:
         solver_s += p.seconds
@@ -118,6 +132,16 @@ def run_check(prop, tier, only=None, jobs=14, show=None):
         if p.bounded: rec['bounded'] = 'unwind=%s with unwinding assertions (bounded stand-in, not counted as proved)' % p.opts['unwind']
         proofs_ev.append(rec)
         if p.status == 'UNDECIDED':
+            loose0 = u.unannotated_loops(p) if p.reach_bodies else []
+            if loose0 and re.search(r'timeout|out of memory|no result|crash', p.reason, re.I):
+                # the havoc abstraction of loops whose contracts no longer apply made the proof too big: same bounded stand-in as below
+                p3, f3, clean3 = standin(u, p); solver_s += p3.seconds
+                if clean3:
+                    bounded.append({'proof': p.target, 'unwind': str(FALLBACK_UNWIND), 'obligations': len(p3.results), 'failed': 0,
+                                    'reason': 'loop contract(s) %s of the sidecar do not apply to the current shape of the code and the proof without them exceeds the resource limits (%s); bounded stand-in: no loop contracts, every loop unwound %d times' % (', '.join(loose0), p.reason[:80], FALLBACK_UNWIND)})
+                    standin_lines.append('BOUNDED property=%s unit=%s:%s loop contracts do not match the code shape (%s); bounded stand-in (unwind %d, no unwinding assertions) discharged %d obligations: not counted as proved'
+                                         % (prop, u.name, p.target, ', '.join(loose0), FALLBACK_UNWIND, len(p3.results)))
+                    continue
             undecided.append((u.name + ':' + p.target, p.reason)); continue
         fails = [r for r in p.results if r['status'] != 'SUCCESS']
         if p.bounded:
@@ -139,6 +163,10 @@ def run_check(prop, tier, only=None, jobs=14, show=None):
             kf = match_finding(findings, prop, p, r)
             if kf: known_hits.append((kf, u, p, r))
             else: unknown.append(r)
+        if unknown and any(k.get('exclude_define') and pp is p for k, _, pp, _ in known_hits) and u.unannotated_loops(p):
+            # reshaped code (loops without matching contract) AND a recorded finding in the same proof: the other failures of this run are no
+            # verdict by themselves; everything is settled on the run with the recorded input class excluded (below)
+            unknown = []
         if unknown:
             violations.append((u, p, unknown))
     # a known finding suppresses only its recorded input class: re-run with the class excluded
@@ -163,7 +191,7 @@ def run_check(prop, tier, only=None, jobs=14, show=None):
                 if f2:
                     violations.append((u, p2, f2))
     rc = 0
-    out_lines = []
+    out_lines = list(standin_lines)
     for kf in {k['id']: k for k, _, _, _ in known_hits}.values():
         out_lines.append('KNOWN-FINDING: property=%s %s' % (prop, kf['what']))
     replay_paths = []
@@ -178,17 +206,8 @@ def run_check(prop, tier, only=None, jobs=14, show=None):
             # with NO loop contract at all, every loop unwound FALLBACK_UNWIND times (longer executions cut off): if that discharges
             # everything the property held on everything explored (labelled bounded, never counted as proved); if it fails as well and
             # no failing input exists on the real code, the result is undecided (the sidecar may simply not fit the new code shape)
-            p3 = engine.Proof(p.kind, p.target, dict(p.opts, fallback_unwind=str(FALLBACK_UNWIND), canary='0'))
-            try: u.prove(p3)
-            except Exception as e: p3.status = 'UNDECIDED'; p3.reason = 'internal error: %r' % e
-            solver_s += p3.seconds
-            def mach3(x):
-                # in the stand-in run a frame failure located in a MODEL (a model writing a ghost cell that the function's contract does
-                # not list) is a gap of the sidecar for the new code shape, not a verdict about the code
-                f_, _, _ = loc_of(x)
-                return machinery_failure(x) or ('.assigns.' in x.get('property', '') and f_ and (f_.startswith(VERIF) or f_.startswith('contracts/') or f_.startswith('models/')))
-            f3 = [x for x in p3.results if x['status'] != 'SUCCESS' and not mach3(x)]
-            if p3.status != 'UNDECIDED' and p3.results and not f3 and not any(mach3(x) for x in p3.results if x['status'] != 'SUCCESS'):
+            p3, f3, clean3 = standin(u, p); solver_s += p3.seconds
+            if clean3:
                 bounded.append({'proof': p.target, 'unwind': str(FALLBACK_UNWIND), 'obligations': len(p3.results), 'failed': 0,
                                 'reason': 'loop contract(s) %s of the sidecar do not apply to the current shape of the code; bounded stand-in: no loop contracts, every loop unwound %d times, longer executions not explored' % (', '.join(loose), FALLBACK_UNWIND)})
                 out_lines.append('BOUNDED property=%s unit=%s:%s loop contracts do not match the code shape (%s); bounded stand-in (unwind %d, no unwinding assertions) discharged %d obligations: not counted as proved'
